@@ -51,7 +51,7 @@ TRUSTED = [
     "value conditions inside walkers are taken as 'leaf present and non-empty'; flags at their defaults",
     "int() of a \\d+ group is taken as total (the 4300-digit limit of CPython is outside the document model)",
 ]
-FLOORS = {"C02-WALK": 150, "C02-EXCL": 30, "C02-SINK": 6, "C02-FALLBACK": 20, "C02-BYTES": 24, "C02-REPEAT": 2, "C02-DATA": 2, "C02-ONCE": 100, "C02-TRIM": 8}
+FLOORS = {"C02-WALK": 150, "C02-EXCL": 30, "C02-SINK": 6, "C02-FALLBACK": 20, "C02-BYTES": 24, "C02-REPEAT": 2, "C02-DATA": 2, "C02-ONCE": 100, "C02-TRIM": 8, "C02-BREAK": 8}
 
 # ------------------------------------------------------------------------------------------------ WALK
 
@@ -1290,4 +1290,104 @@ def rule_trim(ctx: Ctx) -> RuleReport:
     return rep
 
 
-RULES = [rule_walk, rule_excl, rule_sink, rule_fallback, rule_bytes, rule_repeat, rule_data, rule_once, rule_trim]
+# ----------------------------------------------------------------------------------------------- BREAK
+def _tag_names(ctx, mod, test: ast.AST) -> set[str]:
+    """Local names (without namespace) of the element tags a dispatch test compares with: `x == T`, `x in (T1, T2)`, `x in SET`."""
+    out: set[str] = set()
+    for cmp_ in [x for x in ast.walk(test) if isinstance(x, ast.Compare) and len(x.ops) == 1 and isinstance(x.ops[0], (ast.Eq, ast.In))]:
+        v = ctx.folder.fold(mod, cmp_.comparators[0])
+        vals = [v] if isinstance(v, str) else list(v) if isinstance(v, (tuple, list, set, frozenset)) else []
+        for t in vals:
+            if isinstance(t, str):
+                out.add(t.rsplit("}", 1)[-1])
+    return out
+
+
+def _appends_space(body) -> bool:
+    for st in body:
+        for c in ast.walk(st):
+            if isinstance(c, ast.Call) and isinstance(c.func, ast.Attribute) and c.func.attr == "append" and c.args and isinstance(c.args[0], ast.Constant) and isinstance(c.args[0].value, str) \
+                    and c.args[0].value and c.args[0].value.isspace():
+                return True
+    return False
+
+
+def rule_break(ctx: Ctx) -> RuleReport:
+    """Inline break elements are the only thing between the words on their two sides: each must put white space into the text."""
+    rep = RuleReport("C02-BREAK", "inline break elements (DOCX w:tab / w:br / w:cr inside a run, PPTX a:br, HTML <br> and block children inside cells and headings) "
+                     "emit white space: the words on their two sides are not glued into a token that is not in the document")
+    # (a) DOCX: CT_R (ECMA-376 17.3.3) -- tab, br, cr are siblings of w:t inside the run
+    DOCX_ = X + "ms_modern/docx_extractor.py"
+    dm = ctx.p.module(DOCX_)
+    pt = ctx.p.func(DOCX_, "_process_text_element")
+    rep.unit(pt.key)
+    run_if = [n for n in walk_own(pt.node) if isinstance(n, ast.If) and "r" in _tag_names(ctx, dm, n.test)]
+    loops = [l for i in run_if for l in i.body if isinstance(l, ast.For)]
+    if not loops:
+        raise AnalysisError("C02-BREAK: the w:r branch of _process_text_element (a loop over the run's children) was not found")
+    covered: dict[str, bool] = {}
+    for l in loops:
+        chain = [n for n in ast.walk(l) if isinstance(n, ast.If)]
+        for br in chain:
+            for t in _tag_names(ctx, dm, br.test):
+                covered[t] = covered.get(t, False) or _appends_space(br.body)
+    if "t" not in covered:
+        raise AnalysisError("C02-BREAK: the run loop no longer dispatches on w:t")
+    for need, why in (("tab", "'Name:<w:tab/>Alice' becomes 'Name:Alice'"), ("br", "address lines separated by <w:br/> become one word"), ("cr", "<w:cr/> is the same break in older producers")):
+        if covered.get(need):
+            rep.ok({"docx_run_child": need, "emits": "white space"})
+        else:
+            rep.fail(Finding("C02-BREAK", DOCX_, pt.qual, f"w:{need} inside a run emits nothing", f"the loop over the children of a run has no branch for w:{need} that appends white space: {why}", line=loops[0].lineno))
+    # (b) PPTX: a:br between the runs of a paragraph
+    PPTX_ = X + "ms_modern/pptx_extractor.py"
+    pm = ctx.p.module(PPTX_)
+    hit = False
+    for fi in pm.functions.values():
+        for br in [n for n in walk_own(fi.node) if isinstance(n, ast.If)]:
+            if "br" in _tag_names(ctx, pm, br.test):
+                hit = True
+                rep.unit(fi.key)
+                if _appends_space(br.body):
+                    rep.ok({"pptx": f"{fi.qual}: a:br", "emits": "white space"})
+                else:
+                    rep.fail(Finding("C02-BREAK", PPTX_, fi.qual, "a:br emits nothing", "the branch for a:br does not append white space: the lines of a text box are glued", line=br.lineno))
+    if not hit:
+        rep.fail(Finding("C02-BREAK", PPTX_, "<module>", "a:br not handled", "no function of the PPTX reader has a branch for a:br: the lines of a text box are glued"))
+    # (c) HTML: the text of a node (cells, headings, link texts) -- <br> and block-level descendants are boundaries
+    HTML_ = X + "html_extractor.py"
+    hm = ctx.p.module(HTML_)
+    gn = next((f for f in hm.functions.values() if f.name == "_get_node_text"), None)
+    if gn is None:
+        raise AnalysisError("C02-BREAK: _get_node_text vanished from the HTML reader")
+    rep.unit(gn.key)
+    defs = {n.targets[0].id: n.value for n in walk_own(gn.node) if isinstance(n, ast.Assign) and len(n.targets) == 1 and isinstance(n.targets[0], ast.Name)}
+    # white space must come before the element's own text and after its last child: '<td>A<p>B</p>C</td>' needs both sides
+    body = gn.node.body
+    own_text = next((k for k, st in enumerate(body) if any(isinstance(x, ast.Subscript) and isinstance(x.slice, ast.Constant) and x.slice.value == "text" for x in ast.walk(st)) and
+                     any(isinstance(c, ast.Call) and isinstance(c.func, ast.Attribute) and c.func.attr == "append" for c in ast.walk(st))), None)
+    kids = next((k for k, st in enumerate(body) if any(isinstance(x, ast.For) and "children" in norm(x.iter) for x in ast.walk(st))), None)
+    if own_text is None or kids is None:
+        raise AnalysisError("C02-BREAK: _get_node_text no longer appends the node's text and then its children")
+    before: set[str] = set()
+    after: set[str] = set()
+    for k, br in enumerate(body):
+        if not isinstance(br, ast.If):
+            continue
+        test = br.test
+        if isinstance(test, ast.Name) and test.id in defs:
+            test = defs[test.id]
+        tn = _tag_names(ctx, hm, test)
+        if tn and _appends_space(br.body):
+            if k < own_text:
+                before |= tn
+            elif k > kids:
+                after |= tn
+    for need in ("br", "p", "div", "li"):
+        if (need in before and need in after) or (need == "br" and need in before | after):
+            rep.ok({"html_node_text": need, "emits": "white space on both sides"})
+        else:
+            rep.fail(Finding("C02-BREAK", HTML_, gn.qual, f"<{need}> inside a cell or heading emits nothing", f"_get_node_text concatenates text, children and tails; a <{need}> among the descendants puts no white space between them: '<td>Mainstreet<br>Springfield</td>' gives 'MainstreetSpringfield' in the text and in the table", line=gn.node.lineno))
+    return rep
+
+
+RULES = [rule_walk, rule_excl, rule_sink, rule_fallback, rule_bytes, rule_repeat, rule_data, rule_once, rule_trim, rule_break]
